@@ -37,7 +37,7 @@ RULE = ("generated type definitions (1-4 declared fields, serializers from a poo
         "serialization_failure per call). Typed child actions / messages failing inside an action bound to another logger object report to the destinations. In 30% of the cases "
         "the failing serializers raise one stored exception object again and again. Half of the Message objects made by calling a MessageType pass "
         "through copy.copy / copy.deepcopy (alone, inside a copied container or object graph, copied twice, or copied and then bound) before "
-        ".write(): the copy is serialized and reported exactly like the original. Part 'startup': the same generated cases in processes that "
+        ".write(): the copy is serialized and reported exactly like the original. In one case in eight the failing serializers raise KeyboardInterrupt, SystemExit, GeneratorExit or an application's own BaseException class ("if a serializer raises"): contained and reported like any other failure. Part 'startup': the same generated cases in processes that "
         "have never added a destination - the typed call (after 1-4 plain messages) is made BEFORE the first add_destinations, the "
         "destination is added afterwards and the replayed start-up buffer is judged by the same oracle (counted only when the plain "
         "messages logged just before were replayed too). "
@@ -50,7 +50,7 @@ RULE = ("generated type definitions (1-4 declared fields, serializers from a poo
         "0, '', [], False: the delivered value is the serializer's output (JSON null), never the logged value, for start, success and "
         "stand-alone messages and dicts written with a serializer (failure ends: none of these success fields appears, no serializer runs)")
 ASSUMPTIONS = ["Logger.write with an explicit serializer uses MessageType._serializer (the object the library itself passes)",
-               "serializers raise Exception subclasses"]
+               "serializers raise Exception subclasses or (one failing case in eight) KeyboardInterrupt / SystemExit / GeneratorExit / an application's BaseException class"]
 BATCH = 250
 
 SERS = {
@@ -309,6 +309,12 @@ def one(seed, i, has_globals, gfields, res, templates=(), late_add=False):
     state["exc_class"] = rng.choice([excs.SerFault, StopIteration, StopAsyncIteration, KeyError, IndexError, ValueError, TypeError, RuntimeError,
                                      AssertionError, AttributeError, LookupError, ArithmeticError, excs.BadStr, RecursionError, NotImplementedError,
                                      ValidationErrorOneArg, ValidationErrorOneArg, OddSyntaxError])
+    if rng.random() < 0.12:
+        # "if a serializer raises": also what is not an Exception - Ctrl-C arriving while a serializer runs, sys.exit() in a helper it
+        # calls, an application's own BaseException class
+        state["exc_class"] = rng.choice([KeyboardInterrupt, SystemExit, GeneratorExit, excs.UserBase])
+        if failing:
+            res["counters"]["cases_with_a_serializer_raising_a_non_Exception"] = res["counters"].get("cases_with_a_serializer_raising_a_non_Exception", 0) + 1
     state["shared_exc"] = None
     if rng.random() < 0.3:
         # a stored exception object (a failed Future's result(), a pre-built module-level error) raised again and again
@@ -455,6 +461,8 @@ def one(seed, i, has_globals, gfields, res, templates=(), late_add=False):
         if not unchanged(d, sn):
             problems.append("fields handed to one of %d add_success_fields calls were modified (now %r)" % (len(success_calls), d))
     msgs = tape.msgs("rec")
+    if target is None:
+        target = lambda m: False  # (the call raised before the case got as far as saying which message is its own: already a problem)
     hits = [m for m in msgs if target(m)]
     tbs = [m for m in msgs if m.get("message_type") == "eliot:traceback"]
     sfs = [m for m in msgs if m.get("message_type") == "eliot:serialization_failure"]
@@ -839,6 +847,8 @@ def finalize(agg, tier):
             return "message kind %s never exercised" % k
     if agg["counters"].get("thread_schedules_run", 0) < 300 or agg["counters"].get("reentrant_serializer_cases", 0) < 100:
         return "too few thread schedules / re-entrant serializer cases"
+    if agg["counters"].get("cases_with_a_serializer_raising_a_non_Exception", 0) < 100:
+        return "fewer than 100 cases in which a serializer raised something that is not an Exception"
     if agg["counters"].get("copied_typed_messages_written", 0) < 100 or agg["counters"].get("copied_typed_messages_failing", 0) < 20:
         return "too few typed Message objects were copied (copy.copy / copy.deepcopy) before being written"
     if agg["counters"].get("startup_failures_before_first_add", 0) < 20:
